@@ -3,7 +3,7 @@ import MythVerif.Proofs.WsQueueTsoTac
 namespace MythVerif.WsqTso
 open MythVerif.Wsq
 
-set_option maxHeartbeats 1000000 in
+set_option maxHeartbeats 4000000 in
 theorem t_vk1 (s s' : St) (p : Pid) : Inv s → s.tpc p = .vk1 → stepT s p = some s' → Inv s' := by
   intro h heq hs
   have hb := h.tbufE p (by simp [heq, mayBuf])
@@ -13,7 +13,7 @@ theorem t_vk1 (s s' : St) (p : Pid) : Inv s → s.tpc p = .vk1 → stepT s p = s
   simp only [ownerLocked, carry, resetting, ownerFlight] at *
   tso_finish
 
-set_option maxHeartbeats 1000000 in
+set_option maxHeartbeats 4000000 in
 theorem t_vkf (s s' : St) (p : Pid) (b) : Inv s → s.tpc p = .vkf b → stepT s p = some s' → Inv s' := by
   intro h heq hs
   have hcfg := h.cfg
@@ -27,7 +27,7 @@ theorem t_vkf (s s' : St) (p : Pid) (b) : Inv s → s.tpc p = .vkf b → stepT s
     tso_finish
   · simp at hs
 
-set_option maxHeartbeats 1000000 in
+set_option maxHeartbeats 4000000 in
 theorem t_vk2 (s s' : St) (p : Pid) (b) : Inv s → s.tpc p = .vk2 b → stepT s p = some s' → Inv s' := by
   intro h heq hs
   have hb := h.tbufE p (by simp [heq, mayBuf])
@@ -38,7 +38,7 @@ theorem t_vk2 (s s' : St) (p : Pid) (b) : Inv s → s.tpc p = .vk2 b → stepT s
   all_goals simp only [ownerLocked, carry, resetting, ownerFlight] at *
   all_goals tso_finish
 
-set_option maxHeartbeats 1000000 in
+set_option maxHeartbeats 4000000 in
 theorem t_vk3 (s s' : St) (p : Pid) (b) : Inv s → s.tpc p = .vk3 b → stepT s p = some s' → Inv s' := by
   intro h heq hs
   have hb := h.tbufE p (by simp [heq, mayBuf])
